@@ -802,8 +802,8 @@ func FanoutScenarios(thorough bool) []runner.Scenario {
 		steps, e, sh = 8, 4, 16
 	}
 	return []runner.Scenario{
-		{Name: fmt.Sprintf("adapters-teardown-steps%d", steps), Body: FanoutBody(steps, false), P: 0, E: e, Shards: sh, Horizon: 400000},
-		{Name: fmt.Sprintf("adapters-disconnect-steps%d", steps), Body: FanoutBody(steps, true), P: 0, E: e, Shards: sh, Horizon: 400000},
+		{Name: fmt.Sprintf("adapters-teardown-steps%d", steps), Body: FanoutBody(steps, false), P: 0, E: e, Shards: sh, Horizon: 400000, NoFine: true},
+		{Name: fmt.Sprintf("adapters-disconnect-steps%d", steps), Body: FanoutBody(steps, true), P: 0, E: e, Shards: sh, Horizon: 400000, NoFine: true},
 	}
 }
 
@@ -814,7 +814,7 @@ func ReleaseScenarios(thorough bool) []runner.Scenario {
 		steps, e, sh = 6, 5, 16
 	}
 	return []runner.Scenario{
-		{Name: fmt.Sprintf("transport-release-steps%d", steps), Body: ReleaseBody(steps), P: 0, E: e, Shards: sh, Horizon: 400000},
+		{Name: fmt.Sprintf("transport-release-steps%d", steps), Body: ReleaseBody(steps), P: 0, E: e, Shards: sh, Horizon: 400000, NoFine: true},
 	}
 }
 
